@@ -485,9 +485,16 @@ def install(E):
         o = st.mem[p.obj]
         return E.typeid_for(o.name[1:])
 
-    @reg("llvm.va_start", "llvm.va_end", "llvm.va_copy")
+    @reg("llvm.va_start", "llvm.va_end")
     def va(E, st, fr, ins, a):
-        raise EngineError("va_list use in %s (stub the variadic callee)" % fr.func.name)
+        # the va_list object stays opaque: it may only be handed to a (stubbed) v*printf-style callee
+        if ins and "va_start" in ins.text:
+            E.memset(st, a[0], 0, 24)
+        return None
+
+    @reg("llvm.va_copy")
+    def va_copy(E, st, fr, ins, a):
+        raise EngineError("va_copy in %s (stub the variadic callee)" % fr.func.name)
 
     # ------------------------------------------------------------------ C strings
     def sbyte(E, st, p, i):
